@@ -178,7 +178,7 @@ class DbLayouts(Fam):
     exhaustive = False
     procs = 0
     rule = ('tiny database (11 genomes incl. identical ones and two without any k-mer; one probe without any k-mer) written with the signature file in identity / reversed / rotated / shuffled order and '
-            'unused signatures in front, behind, both, in the middle or absent (20 layouts) x 4 probes x chunk sizes {none,1,2,4,1000} x N in {1,3,n+2}: '
+            'unused signatures in front, behind, both, in the middle or absent (25 layouts, alternating between two editions of the taxonomy with the same primary keys and other thresholds / one moved species, all opened in one process) x 4 probes x chunk sizes {none,1,2,4,1000} x N in {1,3,n+2}: '
             'one record per (layout, probe) holding all runs; TLC recomputes the distances from the nucleotide sequences')
 
     def inputs(self, ctx):
@@ -194,10 +194,20 @@ class DbLayouts(Fam):
         orders = dict(identity=list(range(n)), reversed=list(range(n))[::-1], rotated=list(range(3, n)) + [0, 1, 2], empties_first=[n - 2, n - 1] + list(range(n - 2)), shuffled=rng.sample(range(n), n))
         extras = dict(none=[], front=[0], back=[n], both=[0, n + 1], middle=[4])
         probes = W.query_pool(w, seed=ctx.seed + 5)
+        # the databases are opened one after the other in ONE process; every second one is a re-tuned edition of the same taxonomy (same
+        # primary keys, other thresholds, one species moved to the other genus): nothing learnt from one database may be applied to the next
+        import copy
+        w2 = copy.deepcopy(w)
+        for t, thr in zip(w2['taxa'], (0.875, 0.125, 0.5, 0.0625, 0.25, 0.1875)):
+            t['thr'] = thr
+        w2['taxa'][2]['parent'] = 5
+        w2['version'] = '2.0'
+        turn = 0
         for on, order in orders.items():
             for en, pos in extras.items():
-                yield dict(world=w, order=order, extra=[dict(id=f'unused_{i}', contigs=[W.rand_seq(rng, 150)], pos=p) for i, p in enumerate(pos)],
-                           probes=[p['contigs'] for p in probes[:3 if ctx.tier == 'quick' else len(probes)]] + [['CCGGGGCC']], layout=f'{on}/{en}')
+                turn += 1
+                yield dict(world=(w, w2)[turn % 2], order=order, extra=[dict(id=f'unused_{i}', contigs=[W.rand_seq(rng, 150)], pos=p) for i, p in enumerate(pos)],
+                           probes=[p['contigs'] for p in probes[:3 if ctx.tier == 'quick' else len(probes)]] + [['CCGGGGCC']], layout=f'{on}/{en}/edition{1 + turn % 2}')
 
     def execute(self, inp):
         raise NotImplementedError        # executed in bulk, see db_layout_records
